@@ -79,6 +79,27 @@ func sqlJoin[T Node](elems []T, sep string) string {
 	return b.String()
 }
 
+// dotSep returns the blank needed between the text of an operand and a following ".":
+// "1 .x" must not become "1.x", which is the float literal "1." glued to x.
+// It is needed when operand ends with a decimal integer token, i.e. with digits
+// that are not the tail of an identifier, a hex or float literal ("a1", "0x1", "1.5", "1e3").
+func dotSep(operand string) string {
+	i := len(operand)
+	for i > 0 && '0' <= operand[i-1] && operand[i-1] <= '9' {
+		i--
+	}
+	if i == len(operand) {
+		return ""
+	}
+	if i > 0 {
+		c := operand[i-1]
+		if c == '_' || c == '.' || 'a' <= c && c <= 'z' || 'A' <= c && c <= 'Z' {
+			return ""
+		}
+	}
+	return " "
+}
+
 // formatBoolUpper formats bool value as uppercase.
 func formatBoolUpper(b bool) string {
 	return strings.ToUpper(strconv.FormatBool(b))
@@ -258,7 +279,8 @@ func (s *Star) SQL() string {
 }
 
 func (s *DotStar) SQL() string {
-	return s.Expr.SQL() + ".*" + sqlOpt(" ", s.Except, "") + sqlOpt(" ", s.Replace, "")
+	expr := s.Expr.SQL()
+	return expr + dotSep(expr) + ".*" + sqlOpt(" ", s.Except, "") + sqlOpt(" ", s.Replace, "")
 }
 
 func (a *Alias) SQL() string {
@@ -456,7 +478,8 @@ func (b *BetweenExpr) SQL() string {
 
 func (s *SelectorExpr) SQL() string {
 	p := exprPrec(s)
-	return paren(p, s.Expr) + "." + s.Ident.SQL()
+	expr := paren(p, s.Expr)
+	return expr + dotSep(expr) + "." + s.Ident.SQL()
 }
 
 func (i *IndexExpr) SQL() string {
